@@ -467,6 +467,13 @@ func RunC13(c *Ctx, r *Report) {
 		r.undecided(ruleD, "default block", c.Pos(fn.Pos()), "no default arm found: unknown type codes are not handled")
 		return
 	}
+	// blocks that only jump on (left behind by an extracted-and-inlined helper) are not the arm itself
+	for n := 0; n < 4 && len(def.Instrs) == 1 && len(def.Succs) == 1; n++ {
+		if _, isJ := def.Instrs[0].(*ssa.Jump); !isJ {
+			break
+		}
+		def = def.Succs[0]
+	}
 	iff, ok := def.Instrs[len(def.Instrs)-1].(*ssa.If)
 	if !ok {
 		r.bad(ruleD, "default arm tests the critical bit", c.InstrPos(def.Instrs[len(def.Instrs)-1]), "the default arm does not branch on the critical flag")
